@@ -210,7 +210,7 @@ fn violate(rng: &mut Rng, doc: &mut Y) -> &'static str {
                 m.insert(ys("values"), Y::Sequence(vals));
                 return "enum-duplicate-values";
             }
-            ("enum", 4) => { m.insert(ys("init"), ys("zzUnknown")); return "enum-unknown-init"; }
+            ("enum", 4) => { m.insert(ys("init"), ys(*rng.pick(&["zzUnknown", "init", "type", "values"]))); return "enum-unknown-init"; }
             ("enum", 5) => { if let Some(Y::Sequence(s)) = m.get_mut("values") { s.push(yi(3)); return "enum-item-not-string"; } }
             ("enum", 6) => { m.insert(ys("values"), ys("a, b")); return "enum-values-not-sequence"; }
             ("array", 2) => { m.insert(ys("size"), yu(rng.below(2))); return "array-size-below-2"; }
@@ -222,7 +222,7 @@ fn violate(rng: &mut Rng, doc: &mut Y) -> &'static str {
             ("anon map", 6) => { m.insert(ys("minSize"), yu(2)); m.remove("maxSize"); m.insert(ys("initSize"), yu(1)); return "map-init-below-min"; }
             ("anon map", 7) => { m.remove("initSize"); return "map-missing-initSize"; }
             ("optional", 2) => { m.remove("initPresent"); return "missing-initPresent"; }
-            ("variant", 2) => { m.insert(ys("init"), ys("zzUnknown")); return "variant-unknown-init"; }
+            ("variant", 2) => { m.insert(ys("init"), ys(*rng.pick(&["zzUnknown", "init", "type", "typeDef x", ""]))); return "variant-unknown-init"; }
             ("variant", 3) => {
                 let ks: Vec<Y> = m.keys().filter(|k| k.as_str().map(|s| s != "type" && s != "init").unwrap_or(false)).cloned().collect();
                 if ks.len() >= 2 { for k in &ks[1..] { m.remove(k); } if let Some(k0) = ks[0].as_str() { m.insert(ys("init"), ys(k0)); } return "variant-one-option"; }
